@@ -1,15 +1,19 @@
 #!/bin/sh
-# usage: tools/snapshot.sh   — (re)creates an isolated copy of the machinery: /tmp/vsnap (this directory, harness
-# pointed at /tmp/rsnap) and /tmp/rsnap (a detached worktree of /repo at HEAD), so that the long matrices
-# (tools/seed_matrix.sh, tools/kill_matrix.sh) can run with VERIF_ROOT=/tmp/vsnap REPO_ROOT=/tmp/rsnap while
-# /repo and /verif stay free.  Results are written inside /tmp/vsnap; copy RESULTS.md back by hand.
-# Remove with: git -C /repo worktree remove --force /tmp/rsnap; rm -rf /tmp/vsnap
+# usage: tools/snapshot.sh [suffix]
+# (Re)creates an isolated copy of the machinery: /tmp/vsnap<suffix> (this directory, its harness pointed at
+# /tmp/rsnap<suffix>) and /tmp/rsnap<suffix> (a detached worktree of /repo at HEAD).  The long matrices
+# (tools/seed_matrix.sh, tools/kill_matrix.sh) and tools/run_mutant.sh then run with
+#   VERIF_ROOT=/tmp/vsnap<suffix> REPO_ROOT=/tmp/rsnap<suffix>
+# while /repo and /verif stay untouched (a `vp run` job reads /repo itself).  Results are written inside the
+# copy; copy RESULTS.md back by hand.  Build output of the copy is kept between calls.
+# Remove with: git -C /repo worktree remove --force /tmp/rsnap<suffix>; rm -rf /tmp/vsnap<suffix>
 set -e
-git -C /repo worktree remove --force /tmp/rsnap 2>/dev/null || true
+S="$1"
+git -C /repo worktree remove --force "/tmp/rsnap$S" 2>/dev/null || true
 git -C /repo worktree prune
-git -C /repo worktree add --detach /tmp/rsnap HEAD >/dev/null
-mkdir -p /tmp/vsnap
-rsync -a --delete --exclude 'harness/fuzz/target' --exclude 'harness/target-po' --exclude 'harness/target' --exclude replays --exclude .git /verif/ /tmp/vsnap/
-[ -d /tmp/vsnap/harness/target ] || rsync -a /verif/harness/target /tmp/vsnap/harness/
-sed -i 's|path = "/repo"|path = "/tmp/rsnap"|' /tmp/vsnap/harness/Cargo.toml /tmp/vsnap/harness/sendsync/Cargo.toml
-echo "snapshot ready: VERIF_ROOT=/tmp/vsnap REPO_ROOT=/tmp/rsnap"
+git -C /repo worktree add --detach "/tmp/rsnap$S" HEAD >/dev/null
+mkdir -p "/tmp/vsnap$S"
+rsync -a --delete --exclude 'harness/fuzz/target' --exclude 'harness/target-po' --exclude 'harness/target' --exclude replays --exclude .git /verif/ "/tmp/vsnap$S/"
+[ -d "/tmp/vsnap$S/harness/target" ] || rsync -a /verif/harness/target "/tmp/vsnap$S/harness/"
+sed -i "s|path = \"/repo\"|path = \"/tmp/rsnap$S\"|" "/tmp/vsnap$S/harness/Cargo.toml" "/tmp/vsnap$S/harness/sendsync/Cargo.toml"
+echo "snapshot ready: VERIF_ROOT=/tmp/vsnap$S REPO_ROOT=/tmp/rsnap$S"
